@@ -62,5 +62,13 @@ CLAIMS.update({
             'note': 'Merge flattening (flatten_mapping / SafeConstructor.construct_mapping) and the omap/pairs/set shape checks are NOT proved: they are covered by a bounded stand-in (all mappings with <= 3 entries over plain/merge/merge-list/quoted-<</= keys, sources nested <= 2, shared sources), labelled bounded and not counted as proved.',
             'technique': _T, 'design_ref': 'DESIGN.md 5/C14'},
 })
+CLAIMS.update({
+    'C18': {'text': 'The three mechanisms of incremental consumption are under discharged contracts: Reader.update reads nothing while enough characters are buffered and update_raw performs exactly one read of at most the requested size; pending simple-key candidates are removed once they are on an earlier line or more than 1024 characters back, and need_more_tokens asks for more only while the queue is empty or a candidate is pending; scan/parse/compose_all/load_all yield one item per iteration on demand inside try/finally dispose.',
+            'note': 'The end-to-end bound (k-th document after at most two refill blocks beyond its end) is not derived: the fetch_* token builders between these pieces are not under contract. LibYAML input handler outside.',
+            'technique': _T, 'design_ref': 'DESIGN.md 5/C18'},
+    'C20': {'text': 'Linear-work mechanisms under discharged contracts: bounded simple-key look-ahead (stale_possible_simple_keys, next_possible_simple_key, need_more_tokens), the reader drops the consumed prefix on every refill and never reads while enough is buffered, and the scanning loops under contract carry variants (each iteration consumes input).',
+            'note': 'This is a proof about mechanisms, not the measured call-count property: built-in costs, the emitter queue and the recursive stages are outside; a change that only adds interpreter-level calls without changing these contracts is not detected.',
+            'technique': _T, 'design_ref': 'DESIGN.md 5/C20'},
+})
 for _p in CLAIMS:
     NOT_APPLICABLE.pop(_p, None)
